@@ -14,9 +14,14 @@ FMT = ("stream elements: sink.valid, sink.data, sink.first, sink.last, source.re
 
 
 # ---- glue (session 2).  Stage lists as the *documentation* of Buffer / SyncFIFO / Delay / ClockDomainCrossing gives
-# them (Lean: bufferStages, syncFifoStages, delayStages, cdcSameStages) and the delivery window of a pipeline of
-# stages: the product of the windows of its stages (Lean: `pipeB l + 1`, theorem `stages_no_livelock`).
+# them (Lean: bufferStages, syncFifoStages, delayStages, cdcSameStages).  Delivery window of a pipeline of stages:
+# 1 + the sum of the stage latencies (Lean: `pipeLat l + 1`, theorem `pipeline_no_livelock_tight`, attained);
+# of compositions obtained through the class `Live`: the product of the windows (`pipeB l + 1`, `bufferize_*`).
 STAGE_B = {"w": 0, "v": 1, "r": 0, "f": 1, "b": 2}
+
+
+def pipe_window_tight(codes):
+    return 1 + sum(STAGE_B[c[0]] for c in codes)
 
 
 def _buf(pv, pr):
@@ -53,9 +58,9 @@ def bounds(lean_open):
         k_hs=k_hs, k_del=k_del, k_acc=k_acc, coop_extra=coop_extra, stable=True, note=note)
     if name in ("stages", "monitored"):
         codes = ws[1:] if name == "stages" else ws[7:]
-        k = pipe_window(codes)                          # stages_no_livelock / monitored_no_livelock
-        return B(k, k, 1 if all(c in ("w", "v") for c in codes) else None,   # stages_accepts (connect/PipeValid only)
-                 note="window = product of the stage windows (Live.comp)")
+        k = pipe_window_tight(codes)                    # pipeline_no_livelock_tight / monitored_pipeline_tight
+        return B(k, k, 1 if all(c in ("w", "v") for c in codes) else None,   # pipeline_accepts (connect/PipeValid only)
+                 note="window = 1 + sum of the stage latencies (Flow.comp)")
     if name == "bufferize":
         bs, bd, pv, pr = [int(w) for w in ws[1:5]]
         up = ws[5] == "up"
@@ -550,9 +555,9 @@ def jobs(tier):
                  runs=1 if quick else 2, watch_every=20))
     # Monitor transparency: the handshake of a monitored pipeline is the handshake of the pipeline
     mxm = 20000 if quick else 400000
-    J.append(Job("A", lambda: wrap_inst(mk_monitored(["v"], 1, 1, False, (1, 0, 0, 0), T2), "A"), max_states=mxm,
+    J.append(Job("A", lambda: wrap_inst(mk_monitored(["v"], 1, 1, False, (1, 1, 0, 0), T2), "A"), max_states=mxm,
                  deadline_s=40 if quick else 400))
-    J.append(Job("A", lambda: wrap_inst(mk_monitored(["r"], 1, 1, True, (0, 0, 0, 1), T2), "A"), max_states=mxm,
+    J.append(Job("A", lambda: wrap_inst(mk_monitored(["r"], 1, 1, True, (0, 0, 1, 1), T2), "A"), max_states=mxm,
                  deadline_s=40 if quick else 400))
     if not quick:
         J.append(Job("A", lambda: wrap_inst(mk_monitored(["v", "r"], 1, 1, False, (0, 1, 1, 0), T2), "A"), max_states=mxm,
